@@ -110,6 +110,13 @@ def register(S):
         v = ctx.deref(sref)
         if isinstance(v, Opaque) and v.kind == "src":
             return ctx.ret(src_read(ctx.ip, ctx.st, sref, buf))
+        if isinstance(v, AdtVal) and isinstance(sref, RefVal):
+            # a generic `R: Read` that is a workspace reader on this path: its own read()
+            fn = find_impl_fn(ctx.ip.prog, v.path, "io::Read", "read") or find_impl_fn(ctx.ip.prog, v.path, "Read", "read")
+            if fn is not None:
+                dest, target = ctx.dest, ctx.target
+                ctx.ip.call_fn(ctx.st, fn, [sref, buf], on_return=lambda ip, st, rv: ip.finish_call(st, dest, target, rv))
+                return None
         return NotImplemented
 
     @S.pat(r"^std::io::Seek::seek$|^<std::io::cursor::Cursor<T> as std::io::Seek>::seek$|^no_std_io2?::io::(traits::)?Seek::seek$")
@@ -197,6 +204,14 @@ def register(S):
     @S.on("deku::reader::Reader::<'a, R>::new")
     def reader_new(ctx):
         return ctx.ret(Opaque.make("reader", inner=ctx.args[0], leftover=(), last=0, bits_read=0, skew=0))
+
+    @S.on("deku::reader::Reader::<'a, R>::as_mut", "<deku::reader::Reader<'_, R> as core::convert::AsMut<R>>::as_mut")
+    def reader_as_mut(ctx):
+        rd = ctx.deref(ctx.args[0])
+        if isinstance(rd, Opaque) and rd.kind == "reader" and isinstance(rd.get("inner"), RefVal):
+            inner = rd.get("inner")
+            return ctx.ret(RefVal(inner.loc, True, inner.meta))
+        return NotImplemented
 
     def take_bits(ip, st, rref, n, cont):
         """consume n bits from the deku reader; cont(ip, st, bits_msb | None on EOF)"""
